@@ -2,7 +2,7 @@ package model
 
 import "math"
 
-var edgeInts = []int64{0, 1, -1, 2, 7, 127, -128, 255, 256, 32767, -32768, 65535, 1 << 31 - 1, -(1 << 31), 1 << 32, 1<<63 - 1, -(1 << 63)}
+var edgeInts = []int64{0, 1, -1, 2, 7, 127, -128, 255, 256, 32767, -32768, 65535, 1<<31 - 1, -(1 << 31), 1 << 32, 1<<63 - 1, -(1 << 63)}
 
 var edgeDoubles = []uint64{
 	0, 1 << 63, // +0, -0
